@@ -282,3 +282,10 @@ Qed.
 
 Theorem bool_eq_by_value : forall a b, op_eq (JBool a) (JBool b) = Bool.eqb a b.
 Proof. intros [|] [|]; reflexivity. Qed.
+
+(* not asked by the property, worth knowing: == is not transitive across storages (integers are exact among
+   themselves but rounded to double against a double) *)
+Theorem eq_not_transitive :
+  let a := JInt (2^53 + 1) in let b := JDouble (f_of_Z F64 (2^53)) in let c := JInt (2^53) in
+  op_eq a b = true /\ op_eq b c = true /\ op_eq a c = false.
+Proof. vm_compute. repeat split. Qed.
